@@ -295,10 +295,17 @@ def rule_invalidate(ctx):
               v.loc())
     sc = ctx.index.func("sessioncache:SessionCache.__getitem__")
     gs = ctx.an.cfg(sc)
-    tests = [x for x in gs.nodes if x.kind == "test" and norm(x.expr) == "session.valid()"]
-    ok = bool(tests) and "F" in dead_edge_labels(gs, tests[0], [gs.exit])
+    # the session is returned only on the outcome of the validity test that says "valid"
+    tests = [x for x in gs.nodes if x.kind == "test" and "session.valid()" in norm(x.expr)]
     rets = [x for x in gs.nodes if x.kind == "return"]
-    ok = ok and all(x.id in gs.reach(gs.succ_on(tests[0], "T")) for x in rets)
+    ok = False
+    if tests and rets:
+        t0 = tests[0]
+        neg = isinstance(t0.expr, ast.UnaryOp) and isinstance(t0.expr.op, ast.Not)
+        good, badl = ("F", "T") if neg else ("T", "F")
+        ok = norm(t0.expr) in ("session.valid()", "not session.valid()") \
+            and not any(x.id in gs.reach(gs.succ_on(t0, badl), follow_exc=False) for x in rets) \
+            and all(x.id in gs.reach(gs.succ_on(t0, good)) for x in rets)
     ctx.check(R, ok, sc.qname, "cache returns only valid sessions",
               "SessionCache.__getitem__ must raise KeyError for a session that is no longer valid", sc.loc())
     ch = ctx.index.func(TLSCONN + "_clientSendClientHello")
